@@ -65,7 +65,9 @@ Definition proto_ok_prefix_stmt : Prop :=
 (* recovery's flush of one piece of a replayed segment (table with coverage c, fsync, manifest with
    the log_number unchanged) is accepted whenever everything the segments >= log_number hold is on
    disk — which is the case right after a power loss — and the piece holds only batches of those
-   segments.  (After a PROCESS crash it is not: Crash/ProtoRefute.v recovery_piece_unsynced_refuted.) *)
+   segments.  (After a PROCESS crash it is not — which is why the repaired recovery fsyncs the replayed segments
+   first: recovery_pieces_accepted below; the old recovery: Crash/ProtoRefute.v
+   recovery_piece_unsynced_old_recovery_refuted.) *)
 Definition on_disk (st : pstate) : Prop :=
   forall s sg, segs st s = Some sg -> mlog st <= s -> synced sg = length (recs sg).
 
@@ -81,3 +83,52 @@ Definition piece_flush_accepted_stmt : Prop :=
 Definition power_loss_on_disk_stmt : Prop :=
   forall (sigma : list pevent) keep garb tkeep,
     proto_okb sigma = true -> on_disk (do_crash (prun sigma) (CPow keep garb tkeep)).
+
+(* ------------------------------------------------------------------ recovery with pieces (repaired code) *)
+(* `recovery_full st cuts ids`: what Core::new does to the files after a crash left the state st, for
+   ANY way `cuts` of splitting the replayed segments into memtable-sized pieces (also in the middle
+   of a batch) and any supply `ids` of table ids that are pairwise distinct and not in the manifest. *)
+Definition fresh_ids (st : pstate) (ids : list nat) : Prop :=
+  NoDup ids /\ forall id, In id ids -> ~ In id (mtabs st).
+
+(* after EITHER kind of crash, at any point of an accepted trace, the events of that recovery are
+   accepted by the obligations — false for the recovery before c9fa42b / 372cb98, see
+   Crash/ProtoRefute.v recovery_piece_unsynced_old_recovery_refuted and
+   recovery_nonlast_split_old_recovery_refuted *)
+Definition recovery_pieces_accepted_stmt : Prop :=
+  forall (sigma : list pevent) (c : pcrash) (cuts : nat -> list (nat * bool)) (ids : list nat),
+    proto_okb sigma = true ->
+    let st := do_crash (prun sigma) c in
+    fresh_ids st ids ->
+    okb_from st (recovery_full st cuts ids) = true.
+
+(* hence a trace, a crash, that recovery and an accepted continuation are again an accepted trace:
+   durable_after_crash, recover_is_prefix and reopen_ok apply to every cut of it, in particular to
+   cuts INSIDE the recovery *)
+Definition generations_compose_pieces_stmt : Prop :=
+  forall (sigma : list pevent) (c : pcrash) (cuts : nat -> list (nat * bool)) (ids : list nat) (sigma2 : list pevent),
+    proto_okb sigma = true ->
+    let st := do_crash (prun sigma) c in
+    fresh_ids st ids ->
+    okb_from (run_from st (recovery_full st cuts ids)) sigma2 = true ->
+    proto_okb (sigma ++ Crash c :: recovery_full st cuts ids ++ sigma2) = true.
+
+(* spelled out: a second crash c2, of either kind, after any number k of the recovery's events:
+   the store opens; what had to survive the first crash (the recovery acknowledges nothing and
+   logs nothing) is recovered completely; the recovered batches are the live ones below a bound, the
+   bound is `next` for a process crash; nothing is recovered in part; ids stay below `next` *)
+Definition crash_in_recovery_safe_stmt : Prop :=
+  forall (sigma : list pevent) (c : pcrash) (cuts : nat -> list (nat * bool)) (ids : list nat),
+    proto_okb sigma = true ->
+    let st := do_crash (prun sigma) c in
+    fresh_ids st ids ->
+    forall (k : nat) (c2 : pcrash),
+      let st2 := run_from st (firstn k (recovery_full st cuts ids)) in
+      need_proc st2 = need_proc st /\ need_pow st2 = need_pow st /\ next st2 = next st /\ dead st2 = dead st /\
+      exists l m, recover (do_crash st2 c2) = Some l /\
+                  (forall b, In b (required st2 c2) -> In (b, true) l) /\
+                  m <= next st2 /\
+                  (forall b, In (b, true) l <-> (b < m /\ alive st2 b = true)) /\
+                  (forall b, In (b, false) l -> In (b, true) l) /\
+                  (forall b f, In (b, f) l -> b < next st2) /\
+                  (c2 = CProc -> m = next st2).
